@@ -77,6 +77,7 @@ inductive CExpr (τ : Type) where
   | any (cs : List (CExpr τ))       -- `a | b | ..`
   | inv (c : CExpr τ)               -- `~c`
   | tracked (x : Name) (op : Nat) (v : Int)   -- `tracked <op> v`  (0 <, 1 <=, 2 ==, 3 !=, 4 >=, 5 >)
+  | tracked2 (x : Name) (op : Nat) (y : Name)  -- `tracked_x <op> tracked_y`
   | resLevel (r : Name) (op : Nat) (amounts : List Int)   -- `resources <op> {..}`
   deriving Inhabited
 
@@ -109,6 +110,7 @@ inductive Stmt (τ : Type) where
   | logStatus (task : Name)
   | raise (cls : Nat)
   | tryCatch (body : List (Stmt τ)) (handlers : List (List Pat × List (Stmt τ)))
+  | tryFinally (body : List (Stmt τ)) (cleanup : List (Stmt τ))
   | ret (v : Int)                                    -- `return v` from the coroutine
   -- locks
   | withLock (l : Name) (body : List (Stmt τ))
@@ -215,6 +217,7 @@ inductive CondKind (τ : Type) where
   | done (task : TaskId) (value : Bool) (inverse : CondId)
   | notDone (done : CondId)
   | cmp (x : Name) (op : Nat) (v : Int)
+  | cmp2 (x : Name) (op : Nat) (y : Name)
   /-- comparison of a resource's level vector: `available <op> amounts` (elementwise) -/
   | resCmp (r : Name) (op : Nat) (amounts : List Int)
   | delay (d : τ)                          -- a `Delay` notification (not a condition)
@@ -352,6 +355,9 @@ inductive Frame (τ : Type) where
   | scopeExitWait (s : ScopeId) (snapshot : List TaskId)
   /-- `try:` marker -/
   | tryBlock (handlers : List (List Pat × List (Stmt τ)))
+  /-- `try: .. finally:` marker; after the cleanup: re-raise the pending exception -/
+  | finallyBlock (cleanup : List (Stmt τ))
+  | reraise (e : ExnId)
   /-- lock: waiting in `__aenter__`; body marker -/
   | lockWait (l : Name) (cont : LockCont τ)
   | lockBody (l : Name) (user : Bool)
